@@ -13,9 +13,13 @@ RULE = ("A case is a timeline (integer-ms gaps) of switch reports (raw by number
         "callback allowed), removals, state queries and advances; a handler's callback may itself remove or add "
         "handlers. Non-trivial = the executed timeline has a change inside a pending hold interval, or a registration "
         "while the switch already is in the handler's state, or a removal with a pending timed entry, or a duplicate "
-        "report, or a registry change made from a callback. Distinct = distinct case hash.")
+        "report, or a registry change made from a callback. window: raw reports and advances on a NO and an NC switch "
+        "with ignore_window_ms (50/30 ms); non-trivial = a change inside a running window. Distinct = distinct case hash.")
 ASSUMPTIONS = [
-    "ignore_window_ms is 0 and switches are never muted (the recycle logic suppresses events by design)",
+    "timeline: ignore_window_ms is 0 (switches with a window are the window sub-check's, whose reference is the documented "
+    "recycle rule: first change posts and opens the window, changes inside post nothing, the other state's events once at "
+    "its end)",
+    "window: a report at exactly the instant a window ends is handled after the window's end",
     "an operation at exactly the instant of a hold deadline may land before or after it (both outcomes accepted, never "
     "two calls)",
     "a handler added by a callback during the dispatch of a change may or may not be called for that same change",
